@@ -15,3 +15,5 @@ mod c06_cmp;
 mod c06_nonint;
 #[cfg(kani)]
 mod c06_pred;
+#[cfg(kani)]
+mod c11_field;
